@@ -98,9 +98,9 @@ theorem minLen_le : ∀ (cols : List (List Val)) (c : List Val), c ∈ cols → 
       · exact Nat.min_le_left _ _
       · exact Nat.le_trans (Nat.min_le_right _ _) (minLen_le (d' :: cols) c h')
 
-theorem bcast_length (n : Nat) (c : List Val) (h : c.length = n ∨ c.length = 1) :
-    (bcast n c).length = n := by
-  unfold bcast
+theorem zbcast_length (n : Nat) (c : List Val) (h : c.length = n ∨ c.length = 1) :
+    (zbcast n c).length = n := by
+  unfold zbcast
   split
   · simp
   · rename_i hne
@@ -111,8 +111,8 @@ theorem bcast_length (n : Nat) (c : List Val) (h : c.length = n ∨ c.length = 1
       | [x], _ => exact hne x rfl
 
 theorem bcast_getD (n i : Nat) (hi : i < n) (c : List Val) (d : Val) :
-    (bcast n c).getD i d = if c.length = 1 then c.getD 0 d else c.getD i d := by
-  unfold bcast
+    (zbcast n c).getD i d = if c.length = 1 then c.getD 0 d else c.getD i d := by
+  unfold zbcast
   split
   · rename_i x
     simp [List.getD, hi]
